@@ -245,6 +245,83 @@ pub fn run(ctx: &mut Ctx, c: &Case) -> (String, String) {
                 },
             })
         }
+        // ---- Two-Way building block
+        "twnew" | "twrnew" => {
+            let x = c.bytes("x");
+            let xs = ctx.needle.place(&x, c.num("an"), flush_of(c.num("fln")));
+            let fwd = c.op == "twnew";
+            record(&[], xs, || {
+                if fwd {
+                    format!("{:?}", all::twoway::Finder::new(xs))
+                } else {
+                    format!("{:?}", all::twoway::FinderRev::new(xs))
+                }
+            })
+        }
+        "twfind" | "twrfind" => {
+            let x = c.bytes("x");
+            let h = c.bytes("h");
+            let fx = if c.str("fx").is_empty() { x.clone() } else { c.bytes("fx") };
+            let hs = ctx.hay.place(&h, c.num("a"), flush_of(c.num("fl")));
+            let xs = ctx.needle.place(&x, c.num("an"), flush_of(c.num("fln")));
+            let fwd = c.op == "twfind";
+            let foreign = !c.str("fx").is_empty();
+            record(hs, xs, || {
+                if fwd {
+                    let f = all::twoway::Finder::new(xs);
+                    opt(if foreign { f.find(hs, &fx) } else { f.find(hs, xs) })
+                } else {
+                    let f = all::twoway::FinderRev::new(xs);
+                    opt(if foreign { f.rfind(hs, &fx) } else { f.rfind(hs, xs) })
+                }
+            })
+        }
+        // ---- memmem
+        "mm" => {
+            let x = c.bytes("x");
+            let h = c.bytes("h");
+            let hs = ctx.hay.place(&h, c.num("a"), flush_of(c.num("fl")));
+            let xs = ctx.needle.place(&x, c.num("an"), flush_of(c.num("fln")));
+            let f = c.str("f").to_string();
+            let cfg = c.str("cfg").to_string();
+            let rk = ranker(c.str("rank"));
+            record(hs, xs, || match f.as_str() {
+                "top" => opt(memchr::memmem::find(hs, xs)),
+                "rtop" => opt(memchr::memmem::rfind(hs, xs)),
+                "find" => opt(build_finder(&cfg, rk, xs).find(hs)),
+                "rfind" => opt(memchr::memmem::FinderRev::new(xs).rfind(hs)),
+                _ => "BadCase".to_string(),
+            })
+        }
+        "mmiter" => {
+            let x = c.bytes("x");
+            let h = c.bytes("h");
+            let hs = ctx.hay.place(&h, c.num("a"), flush_of(c.num("fl")));
+            let xs = ctx.needle.place(&x, c.num("an"), flush_of(c.num("fln")));
+            let cfg = c.str("cfg").to_string();
+            let rk = ranker(c.str("rank"));
+            let k = c.num("k");
+            let rev = c.str("dir") == "r";
+            record(hs, xs, || {
+                let mut outs: Vec<String> = Vec::new();
+                if rev {
+                    let f = memchr::memmem::FinderRev::new(xs);
+                    let mut it = f.rfind_iter(hs);
+                    for _ in 0..k {
+                        outs.push(opt(it.next()));
+                    }
+                } else {
+                    let f = build_finder(&cfg, rk, xs);
+                    let mut it = f.find_iter(hs);
+                    for _ in 0..k {
+                        let (lo, hi) = it.size_hint();
+                        let hi = hi.map(|x| x.to_string()).unwrap_or("inf".to_string());
+                        outs.push(format!("{}-{}:{}", lo, hi, opt(it.next())));
+                    }
+                }
+                outs.join(";")
+            })
+        }
         _ => {
             let _ = opt(None);
             ("UnknownOp".to_string(), "-".to_string())
@@ -385,5 +462,19 @@ pub fn pp_op(isa: &str, x: &[u8], i1: u8, i2: u8, hs: &[u8], xs: &[u8], find: bo
         #[cfg(target_arch = "x86_64")]
         "avx2" => pp_isa!(memchr::arch::x86_64::avx2::packedpair, x, i1, i2, hs, xs, find),
         _ => "BadIsa".to_string(),
+    }
+}
+
+pub fn build_finder<'n>(cfg: &str, rk: Option<Ranker>, x: &'n [u8]) -> memchr::memmem::Finder<'n> {
+    use memchr::memmem::{FinderBuilder, Prefilter};
+    let mut b = FinderBuilder::new();
+    if cfg == "none" {
+        b.prefilter(Prefilter::None);
+    } else if cfg == "auto" {
+        b.prefilter(Prefilter::Auto);
+    }
+    match rk {
+        None => b.build_forward(x),
+        Some(r) => b.build_forward_with_ranker(r, x),
     }
 }
